@@ -11,8 +11,9 @@ id=$prop-$n; src=${SEED_SRC:-/tmp/out-$prop/$n}; [ -f $src/patch.diff ] || src=/
 S=/tmp/seedrepo-$$; rm -rf $S; rsync -a --exclude .git /repo/ $S/
 race=""; [ -f $src/race ] && race=-race   # a demo that only fails under the race detector carries a marker file
 [ -f $src/tags ] && race="$race -tags $(cat $src/tags)"   # a demo that needs build tags (purego) names them in a file
+denv=""; [ -f $src/env ] && denv="env $(cat $src/env)"   # a demo that needs another target (GOARCH=386) names it in a file
 demo() { # $1 = label
-  if [ "$pkg" != "-" ]; then cp $src/demo_test.go $S/$pkg/zz_demo_test.go; (cd $S && go test $race -count=1 -timeout 180s -run "$run" ./$pkg/ >/tmp/seed-demo-$1.log 2>&1); rc=$?; rm -f $S/$pkg/zz_demo_test.go; return $rc
+  if [ "$pkg" != "-" ]; then cp $src/demo_test.go $S/$pkg/zz_demo_test.go; (cd $S && $denv go test $race -count=1 -timeout 180s -run "$run" ./$pkg/ >/tmp/seed-demo-$1.log 2>&1); rc=$?; rm -f $S/$pkg/zz_demo_test.go; return $rc
   else (cd $src/demo && sed -i "s#=> .*#=> $S#" go.mod && cp $S/go.sum . 2>/dev/null; go run . >/tmp/seed-demo-$1.log 2>&1); return $?; fi; }
 demo clean; clean=$?
 (cd $S && patch -p1 -s < $src/patch.diff) || { echo "patch does not apply"; exit 1; }
@@ -35,7 +36,7 @@ done
 rm -rf $L
 [ -n "${SEED_SCRATCH:-}" ] || git -C /repo checkout -- .
 echo "caught_by:${caught:- NONE}"
-d=/verif/seeded/$id; mkdir -p $d; if [ "$src" != "$d" ]; then cp $src/patch.diff $d/; cp -r $src/demo_test.go $src/demo $src/race $src/tags $d/ 2>/dev/null; cp $src/README.md $d/AGENT_README.md 2>/dev/null; fi
+d=/verif/seeded/$id; mkdir -p $d; if [ "$src" != "$d" ]; then cp $src/patch.diff $d/; cp -r $src/demo_test.go $src/demo $src/race $src/tags $src/env $d/ 2>/dev/null; cp $src/README.md $d/AGENT_README.md 2>/dev/null; fi
 ran="rsync copy of /repo; patch -p1; go build ./...; go test -count=1 -timeout 120s ./...; demo with and without patch; git -C /repo apply; vcheck -property <each> -no-evidence; git -C /repo checkout -- ."; [ -n "${SEED_SCRATCH:-}" ] && ran="rsync copy of /repo; patch -p1; go build ./...; go test -count=1 -timeout 120s ./...; demo with and without patch; vcheck -property <each> -no-evidence -repo <the patched copy>; copy removed"
 jq -n --arg ran "$ran" --arg prop "$prop" --arg id "$id" --arg caught "${caught# }" --argjson suite $suite --argjson clean $clean --argjson patched $patched --arg pkg "$pkg" --arg run "$run" \
   '{id:$id, breaks_property:$prop, source:"independent sub-agent given only the property text and a scratch worktree", confirmed:{suite_rc_with_patch:$suite, demo_rc_without_patch:$clean, demo_rc_with_patch:$patched}, demo:{package_dir:$pkg, run:$run}, caught_by_quick_checks:($caught|split(" ")), what_i_ran:$ran}' > $d/meta.json
